@@ -88,7 +88,7 @@ func lexExpr(s string) ([]tok, error) {
 			ts = append(ts, tok{"id", s[i:j]})
 			i = j
 		default:
-			ops := []string{"<==>", "==>", "::", "==", "!=", "<=", ">=", "&&", "||", "(", ")", "[", "]", ",", ".", ":", "<", ">", "+", "-", "*", "/", "%", "!"}
+			ops := []string{"<==>", "==>", ":=", "::", "==", "!=", "<=", ">=", "&&", "||", "(", ")", "[", "]", ",", ".", ":", "<", ">", "+", "-", "*", "/", "%", "!"}
 			matched := false
 			for _, op := range ops {
 				if strings.HasPrefix(s[i:], op) {
@@ -489,7 +489,14 @@ type SpecFunc struct {
 	Ret  string
 }
 
+type PredDef struct {
+	Name   string
+	Params []string
+	Body   Expr
+}
+
 type ContractSet struct {
+	Preds     map[string]*PredDef
 	ByKey     map[string]*Contract
 	FuncValue map[string]string // named func type (short) -> contract key
 	FieldFunc map[string]string // Type.field -> contract key
@@ -513,7 +520,7 @@ func parseTags(s string) (props []string, label string) {
 }
 
 func parseContracts(lines []srcLine) *ContractSet {
-	cs := &ContractSet{ByKey: map[string]*Contract{}, FuncValue: map[string]string{}, FieldFunc: map[string]string{}, SpecFuncs: map[string]*SpecFunc{}}
+	cs := &ContractSet{Preds: map[string]*PredDef{}, ByKey: map[string]*Contract{}, FuncValue: map[string]string{}, FieldFunc: map[string]string{}, SpecFuncs: map[string]*SpecFunc{}}
 	// join continuation lines
 	var joined []srcLine
 	for _, l := range lines {
@@ -589,6 +596,26 @@ func parseContracts(lines []srcLine) *ContractSet {
 				}
 			}
 			cs.SpecFuncs[sf.Name] = sf
+			cur = nil
+		case "pred":
+			// pred name(a, b) := EXPR
+			r := regexp.MustCompile(`^(\w+)\(([^)]*)\)\s*:=\s*(.*)$`).FindStringSubmatch(rest)
+			if r == nil {
+				errf(l, "pred name(params) := EXPR")
+				continue
+			}
+			e, err := parseExpr(r[3])
+			if err != nil {
+				errf(l, "%v", err)
+				continue
+			}
+			pd := &PredDef{Name: r[1], Body: e}
+			for _, a := range strings.Split(r[2], ",") {
+				if a = strings.TrimSpace(a); a != "" {
+					pd.Params = append(pd.Params, a)
+				}
+			}
+			cs.Preds[pd.Name] = pd
 			cur = nil
 		case "axiom":
 			if c := mk("axiom", rest); c != nil {
